@@ -101,7 +101,16 @@ def build(spec, tmpdir):
             root = ds.root_dataset
             root._collators = make_collators(w["collators"])
     for layer in spec.get("top", []):
-        if layer == "pass":
+        if layer == "pseudo":
+            # dynamically sampled pseudo labels (unseeded top-k sampling) above the stack
+            from kappadata.wrappers import KDPseudoLabelWrapper
+            try:
+                C = ds.getdim_class()
+                table = torch.tensor(np.random.default_rng(3).random((len(ds), C)), dtype=torch.float32)
+                ds = KDPseudoLabelWrapper(ds, pseudo_labels=table, topk=2, tau=1.0, seed=None)
+            except Exception:
+                pass  # stacks without class labels
+        elif layer == "pass":
             ds = c08.PassW(ds)
         elif layer == "subset":
             ds = KDSubset(ds, list(range(len(ds)))[::-1])
@@ -193,6 +202,14 @@ def check(spec):
         if spec.get("pre_init") is not None:
             # the hook may also be run by hand in the main process (e.g. to load one sample) before workers are spawned
             _init(template, spec["pre_init"], spec["rank"])
+        if spec.get("peek"):
+            # a sample is loaded in the main process before the workers exist (dataset[0] to look at shapes): whatever that creates lazily
+            # is copied into every worker and must be re-seeded there like everything else
+            for item in ("x", "class"):
+                try:
+                    getattr(template, f"getitem_{item}")(0)
+                except Exception:
+                    pass
         base = _states(template)
         if not base and spec["w"]["kind"] != "mix":
             raise Refused("no generator reachable")
@@ -330,7 +347,8 @@ def stack(draw, tier, for_real=False):
     if for_real and kind in ("imagefolder", "multiview_pair"):
         kind = "x"
     w = {"kind": kind, "n": draw(st.integers(2, 5)), "key": draw(st.integers(0, 99)),
-         "seed": draw(st.sampled_from([None, None, None, 5])), "pos": draw(st.sampled_from(["top", "under_pass", "over_subset", "under_subset"]))}
+         "seed": draw(st.sampled_from([None, None, None, 5])), "pos": draw(st.sampled_from(["top", "under_pass", "over_subset", "under_subset"])),
+         "factory": draw(st.booleans())}
     if kind in ("x", "y"):
         w["t"] = draw(WITHSCHED)
         w["fam"] = treg.family(w["t"])
@@ -358,7 +376,7 @@ def stack(draw, tier, for_real=False):
         w["via"] = draw(st.sampled_from(["init", "property"]))
     elif kind != "imagefolder" and draw(st.integers(0, 2)) == 0:
         w["collators"] = draw(st.lists(st.sampled_from(names), min_size=1, max_size=2))
-    top = draw(st.lists(st.sampled_from(["pass", "subset", "concat", "concat_rev", "concat_shared", "mode", "interleaved"]), max_size=2))
+    top = draw(st.lists(st.sampled_from(["pass", "subset", "concat", "concat_rev", "concat_shared", "mode", "interleaved", "pseudo"]), max_size=2))
     if "mode" in top or "interleaved" in top:
         # ModeWrapper / the scheduler's dataset are always outermost
         top = [t for t in top if t not in ("mode", "interleaved")] + [next(t for t in top if t in ("mode", "interleaved"))]
@@ -368,7 +386,7 @@ def stack(draw, tier, for_real=False):
         top = []
     return {"w": w, "top": top, "g0": draw(st.integers(0, 999)), "seed_a": draw(st.integers(0, 2 ** 31 - 1)),
             "seed_b": draw(st.integers(0, 2 ** 31 - 1)), "rank": draw(st.integers(0, 3)),
-            "pre_init": draw(st.sampled_from([None, None, 7, 12345])),
+            "pre_init": draw(st.sampled_from([None, None, 7, 12345])), "peek": draw(st.booleans()),
             # real-worker facet only: None = a hand-made DataLoader, 0 = the scheduler's own loader, 2/3 = ... with an explicit prefetch factor
             "via": draw(st.sampled_from([None, None, 0, 2, 3])) if for_real else None}
 
